@@ -8,6 +8,10 @@
 //      any number of threads perform read-only operations on one shared document (type tests, getters, iteration,
 //      FindMember hit and miss, HasMember, operator[] on present keys - and on missing keys when withmissing=1 -,
 //      AtPointer, operator==, Serialize into a thread-local buffer).  Run under ThreadSanitizer.
+//  rt_mt corpus <nthreads> <rounds> <seed> <texts.hex>
+//      every thread runs the single-threaded API (Parse, Dump, re-Parse, GetOnDemand, ParseSchema, UpdateLazy) over the
+//      same TLC-generated corpus of texts on documents of its own: whatever the corpus reaches in the library must not
+//      touch state shared between threads.  Results are compared with a single-threaded reference pass.
 //  rt_mt owners <nthreads> <rounds> <seed>
 //      every thread parses, mutates and serialises its own documents (own allocators).  Run under ThreadSanitizer.
 // exit 0 = no violation seen by the driver itself (TSan reports come through its own exit code).
@@ -19,6 +23,7 @@
 #include <thread>
 
 #include "sonic/sonic.h"
+#include "sonic/experiment/lazy_update.h"
 #include "vh.h"
 
 using namespace sonic_json;
@@ -167,12 +172,71 @@ static int run_owners(int nt, int rounds, unsigned seed) {
   return bad ? 1 : 0;
 }
 
+// what one text does through the single-threaded API, as a string (for comparison between threads and a reference pass)
+static std::string api_round(const std::string& text) {
+  std::string res;
+  Document d;
+  d.Parse(text.data(), text.size());
+  res += d.HasParseError() ? "E" + std::to_string((int)d.GetParseError()) : "ok";
+  if (!d.HasParseError()) {
+    std::string out = d.Dump();
+    res += "|" + out;
+    Document e;
+    e.Parse(out.data(), out.size());
+    res += e.HasParseError() ? "|re-E" : (e == d ? "|re-eq" : "|re-ne");
+    Document s;
+    s.Parse(out.data(), out.size());
+    s.ParseSchema(text.data(), text.size());
+    res += "|" + s.Dump();
+    res += "|" + UpdateLazy(StringView(out), StringView(text));
+  }
+  StringView target;
+  auto r1 = GetOnDemand(StringView(text.data(), text.size()), JsonPointer({0}), target);
+  res += "|od" + std::to_string((int)r1.Error()) + ":" + std::string(target.data(), target.size());
+  auto r2 = GetOnDemand(StringView(text.data(), text.size()), JsonPointer({"a"}), target);
+  res += "|od" + std::to_string((int)r2.Error()) + ":" + std::string(target.data(), target.size());
+  return res;
+}
+
+static int run_corpus(int nt, int rounds, unsigned seed, const char* path) {
+  std::vector<std::string> texts;
+  {
+    FILE* f = fopen(path, "r");
+    if (!f) { fprintf(stderr, "no corpus\n"); return 3; }
+    char* line = nullptr; size_t cap = 0; ssize_t n;
+    while ((n = getline(&line, &cap, f)) > 0) { std::string h(line, n); while (!h.empty() && (h.back() == '\n' || h.back() == '\r')) h.pop_back(); texts.push_back(vh::unhex(h)); }
+    free(line); fclose(f);
+  }
+  std::vector<std::string> ref(texts.size());
+  for (size_t i = 0; i < texts.size(); i++) ref[i] = api_round(texts[i]);     // single-threaded reference
+  std::atomic<int> bad{0};
+  std::atomic<long> first_bad{-1};
+  std::vector<std::thread> th;
+  std::atomic<int> go{0};
+  for (int t = 0; t < nt; t++)
+    th.emplace_back([&, t] {
+      while (!go.load()) {}
+      for (int r = 0; r < rounds; r++)
+        for (size_t k = 0; k < texts.size(); k++) {
+          size_t i = (k + (size_t)t * 7 + seed) % texts.size();              // threads meet the same text at nearly the same time
+          if ((t & 1) && k + 1 < texts.size()) i = (k + seed) % texts.size();
+          if (api_round(texts[i]) != ref[i]) { bad++; long e = -1; first_bad.compare_exchange_strong(e, (long)i); }
+        }
+    });
+  go = 1;
+  for (auto& x : th) x.join();
+  printf("N\t%zu\n", (size_t)nt * rounds * texts.size());
+  if (bad) vh::fail(0, "mt-owner-result", "an operation on a thread-private document gave a result different from the single-threaded run, first for text " + vh::hex(texts[first_bad.load()]).substr(0, 120));
+  return bad ? 1 : 0;
+}
+
 int main(int argc, char** argv) {
   if (argc < 5) { fprintf(stderr, "usage\n"); return 3; }
   std::string mode = argv[1];
   int nt = atoi(argv[2]), k = atoi(argv[3]);
   unsigned seed = (unsigned)strtoul(argv[4], 0, 10);
   if (mode == "pool") return run_pool(nt, k, seed, argc > 5 ? argv[5] : "/dev/null");
+  if (mode == "corpus") return run_corpus(nt, k, seed, argv[5]);
   if (mode == "readers") return run_readers(nt, k, seed, argc > 5 && atoi(argv[5]) == 1);
   return run_owners(nt, k, seed);
 }
